@@ -54,6 +54,11 @@ Theorem C06_xor_is_spec : forall b key, xor_op b key = xor_spec b key.
 Proof. exact xor_op_is_spec. Qed.
 Print Assumptions C06_xor_is_spec.
 
+(* ---- the text form of a key (String / Parse): restoring saved keys gives the same bytes ------ *)
+Theorem C06_key_text_roundtrip : forall b, Forall (fun x => 0 <= x) b -> hex_dec (hex_enc b) = b.
+Proof. exact hex_roundtrip. Qed.
+Print Assumptions C06_key_text_roundtrip.
+
 (* ---- fillShared: copy(k.share[:], v.Bytes()) ------------------------------------------------ *)
 Theorem C06_fill_shared_length : forall old bytes,
   length old = share_size -> length (fill_shared old bytes) = share_size.
